@@ -142,10 +142,23 @@ class VpC13Tree(Serializable):
     children: list = None
 
 
+class VpC13Derived(VpC13Scalars):
+    """a Serializable class deriving from another user class: it has its own type id and serializes the fields it
+    declares itself (the library takes _fields from the class' own namespace)"""
+    i: int = 7
+    extra: str = "d"
+    tag: bytes = b""
+
+
+class VpC13Derived2(VpC13Derived):
+    z = None
+    extra: str = "dd"
+
+
 ENUMS = {c.__name__: c for c in (VpC13Color, VpC13Mode)}
 ENUM_MEMBERS = {"VpC13Color": ["RED", "GREEN", "BLUE", "ZERO", "NEG", "BIG"], "VpC13Mode": ["ON", "OFF", "UNI"]}
 CLASSES = {c.__name__: c for c in (VpC13Empty, VpC13Scalars, VpC13Containers, VpC13Nested, VpC13NoAnno,
-                                   VpC13Wide, VpC13Tree)}
+                                   VpC13Wide, VpC13Tree, VpC13Derived, VpC13Derived2)}
 # the harness' own record of the fields (definition order) - the oracle does not rely on the library's _fields
 FIELDS = {
     "VpC13Empty": [],
@@ -155,6 +168,8 @@ FIELDS = {
     "VpC13NoAnno": ["v0", "v1", "v2"],
     "VpC13Wide": list("abcdefghijklmn"),
     "VpC13Tree": ["value", "children"],
+    "VpC13Derived": ["i", "extra", "tag"],
+    "VpC13Derived2": ["z", "extra"],
 }
 
 
@@ -792,6 +807,8 @@ def s_objects(children):
         _obj("VpC13NoAnno", v0=children, v1=children, v2=children),
         wide,
         _obj("VpC13Tree", value=children, children=st.lists(children, max_size=3).map(lambda l: {"l": l})),
+        _obj("VpC13Derived", i=s_ints(), extra=s_strs(), tag=s_bytes()),
+        _obj("VpC13Derived2", z=children, extra=s_strs()),
     )
 
 
